@@ -202,7 +202,12 @@ void* cc_dynamic_pool_malloc(size_t size, CC_DynamicPool* pool)
 
     size_t padding = 0;
     if (!pool->is_packed) {
-        padding = size % pool->alignment_boundary;
+        size_t rem  = size % pool->alignment_boundary;
+        size_t room = pool->top_page_size - (size_t)(ptr - pool->low_ptr) - size;
+        if (rem != 0)
+            padding = pool->alignment_boundary - rem;
+        if (padding > room)
+            padding = room;
     }
     pool->free_ptr = ptr + size + padding;
     return ptr;
